@@ -482,3 +482,11 @@ impl Drop for Server {
         }
     }
 }
+
+#[cfg(tiny_http_verif)]
+impl Server {
+    /// Consistent snapshot of the request queue (taken under the queue's own mutex).
+    pub fn verif_queue_snapshot(&self) -> verif::QueueSnapshot {
+        self.messages.verif_snapshot()
+    }
+}
